@@ -1,1 +1,4 @@
 import Driver.Container
+import Driver.RowPipe
+import Driver.Anim
+import Driver.Opts
